@@ -4,7 +4,7 @@ From Coq Require Extraction.
 From Coq Require Import ExtrOcamlBasic.
 From Coq Require Import ZArith NArith List String.
 From Coq.Strings Require Import Byte.
-From Verif Require Import Lanes Common Values Floats Scan Numbers Equality Tokens Reader Configs.
+From Verif Require Import Lanes Common Values Floats Scan Numbers Equality Tokens Reader Api Configs.
 Extraction Blacklist String List Nat Int.
 Set Extraction AccessOpaque.
 Extraction "model.ml"
@@ -12,5 +12,8 @@ Extraction "model.ml"
   skip_ws find_quote scan_digits scan_identifier split_identifier lf_index
   parse_int64 parse_double ratio_gcd le_val eight_digits_check eight_digits_value string_get decode
   equal hash_value hash_cache has_duplicates compare_nodes isort no_ext_equal no_ext_hash
+  map_lookup map_contains set_contains map_get_keyword map_get_ns_keyword map_get_string_key
+  reg_empty reg_register reg_unregister reg_lookup ext_register ext_unregister ext_lookup
+  arena_new arena_alloc builtin_handler
   sf_to_bits sf_of_bits strtod_model get_position
   Byte.of_N Byte.to_N N.of_nat N.to_nat Z.of_N Z.to_N.
